@@ -586,8 +586,15 @@ func IntMirror(c *Term) *Term {
 	if !a.IsBV() || a.W() > 32 {
 		return nil
 	}
-	la, lb := lowerBVToInt(a, 3), lowerBVToInt(b, 3)
-	if la == nil && lb == nil {
+	// only length-like arithmetic is mirrored; masks and shifts stay in the bit-vector theory
+	arith := func(t *Term) bool {
+		switch t.Op {
+		case "bvmul", "bvadd", "bvsub", "bvurem", "bvudiv":
+			return lowerBVToInt(t, 3) != nil
+		}
+		return false
+	}
+	if !arith(a) && !arith(b) {
 		return nil
 	}
 	ia, ib := BVToInt(a, false), BVToInt(b, false)
